@@ -342,7 +342,7 @@ NOT_APPLICABLE = {
     
     'C04': 'lives entirely in format!-built strings and roxmltree parsing; no contract within reach of Verus (no str byte reasoning) or Kani (roxmltree does not finish) can state parse(serialise(x)) = x (DESIGN.md §6)',
      
-    'C15': _PENDING, 
+    'C15': 'applicable but not claimed: the torn-write ordering invariant (device bytes 24..40 stay zero through every device write of every operation until the final header write, DESIGN.md 5.15) was not built; crash-point enumeration is another technique family. Its proved ingredients are under C02: E57Writer::new leaves a placeholder header with zero XML offset/length, finalize_customized_xml replaces only logical bytes 0..48 after the XML has been flushed.',
     'C18': 'about roxmltree name matching and element lookup over arbitrary XML trees; would need an assumed contract on the dependency, which decides nothing (DESIGN.md §6)',
     'C19': 'whole-file composition of C01+C03+C04 plus writer determinism; the XML half is out of reach and whole-program composition is not a per-function contract; decidable ingredients are discharged under C10/C11/C12 (DESIGN.md §6)',
     'C20': 'the tools are main() functions doing process and file I/O; there is no function to put under contract (DESIGN.md §6)',
